@@ -115,8 +115,10 @@ def refine(op):
         n = 0 if t[3] == "-" else len(t[3].split(","))
         return [f"hist {t[1]} {t[3]} - {','.join(script_ops(t[2], n))}"]
     if t[0] == "hist" and t[4] != "-":
-        # shortest failing prefix first
+        # shortest failing prefix first (not for the very long walks: one variant per prefix would be quadratic)
         o = t[4].split(",")
+        if len(o) > 400:
+            return None
         return [f"hist {t[1]} {t[2]} {t[3]} {','.join(o[:k])}" for k in range(1, len(o))]
     return None
 
@@ -451,6 +453,14 @@ def batches(rng, tier):
             ops.append(f"hist {kind} {txt(t)} - {','.join(walk)}")
             ops.append(f"perr {kind} {txt(t + [98])} - {','.join(['g'] * n)} lit 97")
             ops.append(f"gp {kind} {txt(t + [98])} - - eps seq.rep.cset:97,10.lit:97")
+    # 3b''. counters beyond 16 bits: one line of 66000 characters (a column type narrower than the offset wraps at 65536) and 66000 lines
+    long_ops = []
+    for kind, t in (("c", [97] * 66000 + [10, 98]), ("w", [97] * 66000 + [10, 98]), ("c", [10] * 66000 + [98])):
+        n = len(t)
+        first = 65533
+        walk = ["g"] * first + ["p", "g", "p", "g", "p", "g", "p", "g", "p"] + ["g"] * (n - first - 4) + ["p", "s2", "p", "g", "p", "s5", "g", "p"]
+        long_ops.append(f"hist {kind} {txt(t)} - {','.join(walk)}")
+    yield Batch("very-long-line", long_ops, note="a line of 66000 characters (char and wchar_t) and 66000 lines: line / column counters beyond 16 bits, with rewinds")
     yield Batch("special-chars", ops, note="newline look-alikes (low byte 0x0A in a wide character, CR, NEL, U+2028), 0, 0xFF, U+10FFFF")
     # 3c. the clients of get_position / set_position: every combinator, every basic_stream call compared
     core, wide = grammar_sets()
